@@ -99,8 +99,17 @@ def b(x):
     return x if z3.is_expr(x) else z3.BoolVal(bool(x))
 
 
-def range_form_clauses(r, res, prefix="C06.range"):
-    """what each rendered form of a single range must mean"""
+def range_form_clauses(r, res, prefix="C06.range", same=None):
+    """what each rendered form of a single range must mean; `same(a, b)`: the clause's version is the bound (default: the very term)"""
+    if same is not None:
+        class _Eq:
+            def __init__(self, t):
+                self.t = t
+
+            def __eq__(self, other):
+                return same(self.t, other)
+        if isinstance(res, SpecText):
+            res = SpecText([(op, _Eq(v) if op not in ("!=*", "==*") else v) for op, v in res.clauses])
     mn, mx = r.fields["min"], r.fields["max"]
     imin, imax = b(r.fields["include_min"]), b(r.fields["include_max"])
     if res is None:
@@ -123,6 +132,14 @@ def range_form_clauses(r, res, prefix="C06.range"):
     if op == "==":
         return [(f"{prefix}.single-version", z3.And(mn.has, mx.has, v == mn.val, V.ord(mn.val) == V.ord(mx.val), imin, imax))]
     if op == "~=":
+        if same is not None:
+            # the meaning of ~= depends on the number of segments written: the clause's version must have min's release, not just its position
+            i = z3.Int(fresh_name("i"))
+            vt = v.t
+            v = z3.And(V.n(vt) == V.n(mn.val), V.ord(vt) == V.ord(mn.val), z3.ForAll([i], z3.Implies(z3.And(0 <= i, i < V.n(vt)), z3.Select(V.rel(vt), i) == z3.Select(V.rel(mn.val), i))))
+            return [(f"{prefix}.tilde.shape", z3.And(mn.has, mx.has, v, imin, z3.Not(imax), V.n(mn.val) >= 2)),
+                    (f"{prefix}.tilde.upper-is-next-series", z3.Implies(z3.Not(V.post(mx.val)), tilde_upper(mn.val, mx.val))),
+                    (f"{prefix}.tilde.upper-has-no-post-release", z3.Not(V.post(mx.val)))]
         return [(f"{prefix}.tilde.shape", z3.And(mn.has, mx.has, v == mn.val, imin, z3.Not(imax), V.n(mn.val) >= 2)),
                 (f"{prefix}.tilde.upper-is-next-series", z3.Implies(z3.Not(V.post(mx.val)), tilde_upper(mn.val, mx.val))),
                 (f"{prefix}.tilde.upper-has-no-post-release", z3.Not(V.post(mx.val)))]
@@ -194,7 +211,8 @@ class UnionRender:
                     # obligation: the instantiation does not converge on it (shifted views of padded lists) and both solvers answer
                     # unknown on the quantified form.  That clause is covered by the bounded boundary-shape catalogue only.
                     return [("C06.union.wildcard.shape", z3.And(outer, z3.Not(b(left.fields["include_max"])), b(right.fields["include_min"]),
-                                                                suffix_free(lm.val), suffix_free(rn.val), V.epoch(lm.val) == epoch, V.epoch(rn.val) == epoch))]
+                                                                suffix_free(lm.val), suffix_free(rn.val), V.epoch(lm.val) == epoch, V.epoch(rn.val) == epoch)),
+                            ("C06.union.wildcard.bounds", wildcard_bounds(epoch, jd.ints, lm.val, rn.val))]
                 return [("C06.union.known-form", z3.BoolVal(False))]
             yield {"name": f"{n}-ranges", "pre": pre, "thunk": (lambda ex, u=u: ex.call_function(f, [u], inline=True)), "post": post,
                    "args": (left, right), "describe": describe}
@@ -305,6 +323,104 @@ class FromPkgSpecifier:
                        "thunk": (lambda ex, spec=spec: ex.call_function(f, [spec], inline=True)), "post": post, "args": ()}
 
 
+class FromSpecifier:
+    """MarkerExpression.from_specifier(name, s) for python_version / python_full_version and a single range s with suffix-free bounds:
+    None, or an atom whose (operator, Version(value)) clause denotes exactly s (C11 b); the installed `_specifier` is s itself (C10)."""
+    target = "dep_logic.markers.single:MarkerExpression.from_specifier"
+
+    def __init__(self, th):
+        self.th = th
+
+    def cases(self, th):
+        from pyvc.values import ClassRef
+        from pyvc.theories.version import VersionText, PaddedText
+        f = th.index.func(self.target)
+        ME = th.index.cls("MarkerExpression")
+        for name in ("python_version", "python_full_version"):
+            r = th.sym_range("s")
+            mn, mx = r.fields["min"], r.fields["max"]
+            pre = [th.range_pre(r), z3.Implies(mn.has, suffix_free(mn.val)), z3.Implies(mx.has, suffix_free(mx.val))]
+
+            def thunk(ex, r=r, name=name):
+                res = ex.call_function(f, [ClassRef(ME), name, r], inline=True)
+                if isinstance(res, Obj) and res.cls.name == "MarkerExpression":
+                    val = res.fields["value"]
+                    if not isinstance(val, (VersionText, PaddedText)):
+                        return (res, None)
+                    return (res, th.version_from_text(ex, val).term)
+                return (res, None)
+
+            def post(ex, v, r=r):
+                res, pv = v
+                mn, mx = r.fields["min"], r.fields["max"]
+                universal = z3.And(z3.Not(mn.has), z3.Not(mx.has))
+                if res is None:
+                    return [("C11.from_specifier.none-allowed", z3.BoolVal(True))]
+                if not isinstance(res, Obj):
+                    return [("C11.from_specifier.returns-marker", z3.BoolVal(False))]
+                if res.cls.name == "AnyMarker":
+                    return [("C11.from_specifier.any-iff-universal", universal)]
+                if res.cls.name != "MarkerExpression" or pv is None:
+                    return [("C11.from_specifier.returns-atom", z3.BoolVal(False))]
+                op = res.fields["op"]
+                cl = [(nm.replace("C06.range", "C11.from_specifier.atom"), c)
+                      for nm, c in range_form_clauses(r, SpecText([(op, pv)]), same=lambda a, c: V.ord(a) == V.ord(c))]
+                cl.append(("C11.from_specifier.installs-the-given-specifier", z3.BoolVal(res.fields.get("_specifier") is r)))
+                cl.append(("C11.from_specifier.not-universal", z3.Not(universal)))
+                return cl
+            yield {"name": name, "pre": pre, "thunk": thunk, "post": post, "args": (r,), "describe": describe}
+            # a parsed wildcard clause `==P.*` (a range carrying its own text) and `!=P.*` / `!=V` (a union of two half-lines carrying its text)
+            yield from self.parsed_cases(th, f, ME, name)
+
+    def parsed_cases(self, th, f, ME, name):
+        from pyvc.values import ClassRef
+        from pyvc.theories.version import EpochText, JoinDots, PkgSpec, RelText, SpecStr, VersionText
+        U_ = th.index.cls("UnionSpecifier")
+        for op in ("==*", "!=*", "!="):
+            prefix = IL.fresh("prefix")
+            i = z3.Int(fresh_name("i"))
+            pre = [prefix.n >= 1, z3.ForAll([i], z3.Implies(z3.And(0 <= i, i < prefix.n), at(prefix, i) >= 0))]
+            lo, hi = th.sym_version("lo"), th.sym_version("hi")
+            pre += [ver_wf(lo), ver_wf(hi)]
+            if op == "!=":
+                text = VersionText(lo)
+                pre += [suffix_free(lo), hi == lo]
+            else:
+                text = RelText(None, JoinDots(prefix), True)
+                pre += [wildcard_bounds(z3.IntVal(0), prefix, lo, hi), V.ord(lo) < V.ord(hi)]
+            spec = PkgSpec(op.rstrip("*"), text)
+            if op == "==*":
+                s = Obj(th.index.cls("RangeSpecifier"), {"min": Opt(z3.BoolVal(True), lo, "version"), "max": Opt(z3.BoolVal(True), hi, "version"),
+                                                          "include_min": z3.BoolVal(True), "include_max": z3.BoolVal(False), "simplified": SpecStr(spec)})
+            else:
+                none = Opt(z3.BoolVal(False), th.sym_version("none"), "version")
+                left = Obj(th.index.cls("RangeSpecifier"), {"min": none, "max": Opt(z3.BoolVal(True), lo, "version"), "include_min": z3.BoolVal(False),
+                                                             "include_max": z3.BoolVal(False), "simplified": None})
+                right = Obj(th.index.cls("RangeSpecifier"), {"min": Opt(z3.BoolVal(True), hi, "version"), "max": none, "include_min": z3.BoolVal(op == "!=*"),
+                                                              "include_max": z3.BoolVal(False), "simplified": None})
+                s = Obj(U_, {"ranges": (left, right), "simplified": SpecStr(spec)})
+
+            def post(ex, res, s=s, text=text, op=op):
+                if res is None:
+                    return [("C11.from_specifier.none-allowed", z3.BoolVal(True))]
+                if not isinstance(res, Obj) or res.cls.name != "MarkerExpression":
+                    return [("C11.from_specifier.parsed.returns-atom", z3.BoolVal(False))]
+                val = res.fields["value"]
+                cl = [("C11.from_specifier.parsed.operator-kept", z3.BoolVal(res.fields["op"] == op.rstrip("*"))),
+                      ("C11.from_specifier.installs-the-given-specifier", z3.BoolVal(res.fields.get("_specifier") is s))]
+                if op == "!=":
+                    from pyvc.theories.version import PaddedText
+                    cl.append(("C11.from_specifier.parsed.excluded-version-kept",
+                               z3.BoolVal(isinstance(val, (VersionText, PaddedText)) and val.term is text.term)))
+                else:
+                    # zero padding changes the meaning of a wildcard operand: the text must be the very wildcard that was parsed
+                    cl.append(("C11.from_specifier.parsed.wildcard-operand-kept",
+                               z3.BoolVal(isinstance(val, RelText) and val.wild and val.ints is text.ints and val.epoch is text.epoch)))
+                return cl
+            yield {"name": f"{name}|{op}", "pre": pre, "thunk": (lambda ex, s=s: ex.call_function(f, [ClassRef(ME), name, s], inline=True)),
+                   "post": post, "args": ()}
+
+
 def describe(m, args, result=None):
     def ver(t):
         n = m.eval(V.n(t), model_completion=True).as_long()
@@ -330,5 +446,5 @@ def loop_specs(th):
 
 def all_contracts(th):
     cs = [PadZeros(), FirstDifferent(), RangeRender(th, "_simplified_form"), RangeRender(th, "__str__"),
-          UnionRender(th, "_simplified_form"), ReleaseSeries(th), FromPkgSpecifier(th)]
+          UnionRender(th, "_simplified_form"), ReleaseSeries(th), FromPkgSpecifier(th), FromSpecifier(th)]
     return {c.target: c for c in cs}
